@@ -551,6 +551,56 @@ def WFPieces : Option Char → List Piece → Prop
   | prev, .lit _ :: r => prev ≠ some '\'' ∧ WFPieces (some '\'') r
   | prev, .ident q _ :: r => isQuote q = true ∧ prev ≠ some q ∧ WFPieces (some q) r
 
+/-! ## JSON path text (`SQLBuilder.eval_json_path`, `SQLiteBuilder.eval_json_path`) -/
+
+inductive PathElem
+  | key (s : Str)
+  | idx (i : Int)
+  deriving Repr, Inhabited
+
+def isIdentStart (c : Char) : Bool := ('a' ≤ c && c ≤ 'z') || ('A' ≤ c && c ≤ 'Z') || c == '_'
+/-- `pony.utils.is_ident` on ASCII text (`^[A-Za-z_]\w*\Z`; keys with non-ASCII word characters are tied by the oracle only) -/
+def isIdent : Str → Bool
+  | [] => false
+  | c :: r => isIdentStart c && r.all (fun d => isIdentStart d || isDig d)
+
+/-- `'."%s"' % value.replace('"', '\\"')` -/
+def renderQuotedKey (s : Str) : Str := '.' :: '\x22' :: (replaceChar '\x22' ['\\', '\x22'] s ++ ['\x22'])
+
+/-- one element of the path; `hashed`: SQLite with JSON1 and a negative index somewhere in the path (`[#-n]` counts from the end).
+    The segment of a key depends on that key alone. -/
+def renderPathElem (hashed : Bool) : PathElem → Str
+  | .key s => if isIdent s then '.' :: s else renderQuotedKey s
+  | .idx i => if hashed && decide (i < 0) then '[' :: '#' :: (intStr i ++ [']']) else '[' :: (intStr i ++ [']'])
+
+def hasNegIdx : List PathElem → Bool
+  | [] => false
+  | .idx i :: r => decide (i < 0) || hasNegIdx r
+  | .key _ :: r => hasNegIdx r
+
+def renderPathElems (hashed : Bool) : List PathElem → Str
+  | [] => []
+  | e :: r => renderPathElem hashed e ++ renderPathElems hashed r
+
+/-- the path text; `sqliteJson1`: built by SQLiteBuilder with `json1_available` -/
+def jsonPathText (sqliteJson1 : Bool) (items : List PathElem) : Str :=
+  '$' :: renderPathElems (sqliteJson1 && hasNegIdx items) items
+
+/-- reads a quoted key segment `."…"` in which `\"` stands for a double quote (the convention `eval_json_path` writes) -/
+def lexPathKeyBody : Str → Option (Str × Str)
+  | [] => none
+  | c :: r =>
+    if c = '\x22' then some ([], r)
+    else if c = '\\' then
+      match r with
+      | [] => none
+      | d :: r' => (lexPathKeyBody r').map (fun p => (d :: p.1, p.2))
+    else (lexPathKeyBody r).map (fun p => (c :: p.1, p.2))
+
+def lexPathKey : Str → Option (Str × Str)
+  | '.' :: q :: r => if q = '\x22' then lexPathKeyBody r else none
+  | _ => none
+
 /-! ## group_concat: the separator a program supplies -/
 
 /-- `sep.join(xs)` -/
